@@ -211,7 +211,7 @@ pub fn err_json(e: &starlark::Error) -> J {
         }
     }
     json!({"kind": kind_name(e), "msg": msg, "span": span, "span_ok": span_ok,
-           "frames": frames, "frames_ok": frames_ok})
+           "frames": frames, "frames_ok": frames_ok, "full": format!("{}", e)})
 }
 
 fn configure<'v, 'a, 'e>(
